@@ -1,41 +1,65 @@
 import CollectionsC.Properties.C06Queue
 import CollectionsC.Proofs.DequeIndep
-/-! # C14 (queue part) — the adapter and its wrapped deque use only the configured triple
+/-! # C14 (queue part) — the adapter and its wrapped deque use only the triple they were given
 
-`cc_queue_new_conf` passes its configuration on to `cc_deque_new_conf`, and `destroy`/`destroy_cb` release
-the queue header through the queue's own `mem_free` (Q2): all three blocks come from and return to the
-configured triple. -/
+`cc_queue_new_conf` copies the three function pointers into the queue header and passes the same
+configuration on to `cc_deque_new_conf` (so `Queue.Inv` says: header and inner deque carry the same triple);
+`destroy`/`destroy_cb` release the queue header through the queue's own `mem_free` (Q2).  `cc_queue_new`
+does the same with the C library triple.  Triple-aware ledger: see `C14Deque`. -/
 namespace CC.Properties.C14Queue
 open CC CC.Properties.C09Queue
 
-/-- **libc_invariant**: constructor (wrapped inner constructor included), destructors -/
-theorem new_destroy_libc_invariant (q : Queue) (confCap : Nat) (m : Mem) :
-    (Queue.new confCap m).2.2.libc = m.libc ∧ (q.destroy m).libc = m.libc ∧ (q.destroyCb m).2.libc = m.libc := by
-  refine ⟨?_, ?_, ?_⟩
-  · unfold Queue.new
-    dsimp only
-    split
-    · exact Deque.alloc_libc m
-    · split
-      · rw [Deque.free_libc, Deque.new_libc, Deque.alloc_libc]
-      · rw [Deque.new_libc, Deque.alloc_libc]
-  · unfold Queue.destroy; rw [Deque.free_libc, Deque.destroy_libc]
-  · unfold Queue.destroyCb
-    simp only [Deque.foreach]
-    rw [Deque.free_libc, Deque.destroy_libc, Mem.check_libc]
+/-- **derived_inherits_triple / wrapped inner container**: a constructed queue and its inner deque carry
+the triple the constructor was given, its three blocks are obtained through it and nothing through the
+other one; no operation changes it -/
+theorem wrapped_inherits_triple (confCap : Nat) (t : Triple) (m : Mem) :
+    (∀ q, (Queue.new confCap t m).2.1 = some q → q.triple = t ∧ q.d.triple = t) ∧
+    Deque.otherSideSame t (Queue.new confCap t m).2.2 m ∧
+    (∀ q m' op, (stepQ q m' op).2.1.triple = q.triple) := by
+  refine ⟨?_, ?_, fun q m' op => step_triple q m' op⟩
+  · intro q hq
+    rcases Queue.new_spec confCap t m with ⟨_, q', e, n3, _, _, n6, _⟩ | ⟨_, e, _⟩
+    · rw [e] at hq; cases hq; exact ⟨n6, n3.2.trans n6⟩
+    · rw [e] at hq; cases hq
+  · rcases Queue.new_spec confCap t m with ⟨_, _, _, _, _, _, _, n7⟩ | ⟨_, _, n3⟩
+    · exact n7.2.2.2
+    · exact n3.2.2.2
 
-/-- **libc_invariant**, one step and histories -/
-theorem step_libc_invariant (q : Queue) (m : Mem) (op : Op) (hi : q.Inv) : (stepQ q m op).2.2.libc = m.libc :=
-  (C06Queue.step_safe q m op hi).2.2.2.1
+/-- **conf_uses_only_conf**: a queue on the configured triple never causes a C-library event -/
+theorem conf_uses_only_conf (q : Queue) (m : Mem) (op : Op) (hi : q.Inv) (ht : q.triple = .conf) :
+    (stepQ q m op).2.2.libc = m.libc ∧ (stepQ q m op).2.2.lalloc = m.lalloc ∧
+    (stepQ q m op).2.2.lfree = m.lfree ∧ (stepQ q m op).2.2.liveLibc = m.liveLibc := by
+  have h := (C06Queue.step_safe q m op hi).2.1.2.2.2
+  rw [ht] at h; exact h
 
-theorem history_libc_invariant (ops : List Op) (q : Queue) (m : Mem) (hi : q.Inv) :
-    (runQ q m ops).2.2.libc = m.libc := by
-  induction ops generalizing q m with
-  | nil => rfl
-  | cons op ops ih =>
-    obtain ⟨s1, s2⟩ := C06Queue.step_safe q m op hi
-    simp only [runQ]
-    rw [ih _ _ s1, s2.2.2.1]
+/-- **default_uses_only_libc**: a queue on the C library triple never touches the configured allocator and
+is never blocked below the capacity limit -/
+theorem default_uses_only_libc (q : Queue) (f : Spec.QueueSpec.Fifo) (m : Mem) (op : Op) (h : Sim q f)
+    (ht : q.triple = .libc) :
+    ((stepQ q m op).2.2.live = m.live ∧ (stepQ q m op).2.2.nalloc = m.nalloc ∧
+      (stepQ q m op).2.2.nfree = m.nfree ∧ (stepQ q m op).2.2.nrefused = m.nrefused ∧
+      (stepQ q m op).2.2.sched = m.sched) ∧
+    (q.d.cap ≠ Gen.MAX_POW_TWO → blocked q m op = false) := by
+  have h1 := (C06Queue.step_safe q m op h.1).2.1.2.2.2
+  rw [ht] at h1
+  refine ⟨h1, fun hc => ?_⟩
+  cases hb : blocked q m op
+  · rfl
+  · exfalso
+    obtain ⟨_, _, h2⟩ := (blocked_iff q f m op h).mp hb
+    rcases h2 with h2 | h2
+    · exact hc h2
+    · rw [ht] at h2; simp [Mem.allocT] at h2
+
+/-- both for whole histories, and through construction and destruction: everything a conf queue does
+happens on the configured side, everything a default queue does on the C-library side -/
+theorem history_uses_only_own_triple (ops : List Op) (q : Queue) (m : Mem) (hi : q.Inv) :
+    Deque.otherSideSame q.triple (runQ q m ops).2.2 m :=
+  (C06Queue.history_nofault ops q m hi).2.1.2.2.2
+
+theorem destroy_uses_only_own_triple (q : Queue) (m : Mem) (hi : q.Inv) (hlive : 3 ≤ Deque.liveOf q.triple m) :
+    Deque.otherSideSame q.triple (q.destroy m) m ∧ Deque.otherSideSame q.triple (q.destroyCb m).2 m :=
+  ⟨(Queue.destroy_ledger q m hi hlive).2.2.2, (C06Queue.callbacks_visit_each_once q m hi hlive).2.2.2.2.2.2⟩
 
 /-- **allocator_independent**: same refusal schedule ⇒ same status, out-value, physical state, and again
 equal schedules -/
@@ -66,15 +90,20 @@ theorem history_allocator_independent (ops : List Op) (q : Queue) (m m' : Mem) (
     exact ⟨by rw [r1], r2⟩
 
 /-- the wrapped constructor likewise -/
-theorem new_allocator_independent (confCap : Nat) (m m' : Mem) (h : m.sched = m'.sched) :
-    (Queue.new confCap m).1 = (Queue.new confCap m').1 ∧ (Queue.new confCap m).2.1 = (Queue.new confCap m').2.1 := by
-  obtain ⟨a1, a2⟩ := Deque.alloc_congr h
-  obtain ⟨n1, n2, _⟩ := Deque.new_indep confCap m.alloc.2 m'.alloc.2 a2
+theorem new_allocator_independent (confCap : Nat) (t : Triple) (m m' : Mem) (h : m.sched = m'.sched) :
+    (Queue.new confCap t m).1 = (Queue.new confCap t m').1 ∧ (Queue.new confCap t m).2.1 = (Queue.new confCap t m').2.1 := by
+  obtain ⟨a1, a2⟩ := Deque.allocT_congr t h
+  obtain ⟨n1, n2, _⟩ := Deque.new_indep confCap t (m.allocT t).2 (m'.allocT t).2 a2
   unfold Queue.new
   dsimp only
   rw [a1, n1, n2]
   split
   · exact ⟨rfl, rfl⟩
   · split <;> exact ⟨rfl, rfl⟩
+
+/-- non-vacuity / falsifiability: a default-constructed queue records its three allocations on the
+C-library side only -/
+example : (Queue.new 2 .libc {}).2.2.liveLibc = 3 ∧ (Queue.new 2 .libc {}).2.2.live = 0 ∧
+    (Queue.new 2 .conf {}).2.2.live = 3 ∧ (Queue.new 2 .conf {}).2.2.libc = 0 := by decide
 
 end CC.Properties.C14Queue
